@@ -374,6 +374,75 @@ def model_subflow(rep):
     rep.notes['subflow_non_vacuity'] = 'without the final pull UpstreamCompletes / FailureSurfaces are refuted; with the final pull but unread skips - or half-read limited resources - ObserverSawAll is refuted'
 
 
+def model_stats(rep, t):
+    """Stats.tla: the dicts of the steps merged in pipeline order - for every key the report of the LAST step that reports it"""
+    wd = tlc.workdir('c05st')
+    consts = {'MaxLen': 3 if t == 'quick' else 4, 'Rows0': 5, 'Merge': '"update"'}
+    cfg = tlc.write_cfg(os.path.join(wd, 'st.cfg'), constants=consts, invariants=['LastReportWins'], constraints=['Export'])
+    res = tlc.run_tlc('Stats', cfg, workers=1, allow_violation=False)
+    rep.add_tlc(res, 'Stats: every chain of <= %(MaxLen)s steps out of update_stats(k1|k2 = 1|2) / dumper / row-dropping filter over %(Rows0)s rows' % consts)
+    cfg = tlc.write_cfg(os.path.join(wd, 'st0.cfg'), constants=dict(consts, MaxLen=2, Merge='"first"'), invariants=['LastReportWins'])
+    if tlc.run_tlc('Stats', cfg).violated != 'LastReportWins':
+        raise tlc.MachineryError('non-vacuity: Stats.tla with Merge="first" (the first reporter of a key wins) must violate LastReportWins')
+    seen, out = set(), []
+    for c in res.cases:
+        k = canon(c['prog'])
+        if k not in seen:
+            seen.add(k)
+            out.append(dict(stats_chain=True, prog=c['prog'], rows0=c['rows0'], merged=c['merged']))
+    return out
+
+
+def stats_case(c):
+    """the chain of Stats.tla on the real library: what process() / results() return, and what a finalizer at the end is handed"""
+    import dataflows as DF
+    from dataflows import Flow
+    from ..common import tuple_source
+    setup_repo()
+    root = tempfile.mkdtemp(prefix='c05st-', dir=tlc.WORK_ROOT)
+    try:
+        def every_second():
+            def rows(rows):
+                for i, row in enumerate(rows):
+                    if i % 2 == 0:
+                        yield row
+            return rows
+
+        def build(handed):
+            steps = [tuple_source([('res', [('a', 'integer')], [dict(a=i) for i in range(c['rows0'])])])]
+            for i, s_ in enumerate(c['prog']):
+                if s_[0] == 'u':
+                    steps.append(DF.update_stats({s_[1]: s_[2]}))
+                elif s_[0] == 'd':
+                    steps.append(DF.dump_to_path(os.path.join(root, 'o%d-%d' % (len(handed), i))))
+                else:
+                    steps.append(every_second())
+            steps.append(DF.finalizer(lambda stats: handed.append(dict(stats))))
+            return steps
+        want = {k: v for k, v in c['merged'].items() if v != 0 and k != 'rows'}
+        if c['merged']['rows']:
+            want['count_of_rows'] = c['merged']['rows'] - 1
+        for mode in ('process', 'results'):
+            handed = [None] if mode == 'results' else []
+            handed_ = []
+            with contextlib.redirect_stdout(io.StringIO()), contextlib.redirect_stderr(io.StringIO()):
+                out = getattr(Flow(*build(handed_)), mode)()
+            stats = out[-1]
+            got = {k: stats.get(k) for k in ('k1', 'k2', 'count_of_rows') if k in stats}
+            if got != want:
+                return dict(ok=False, why='%s() returns statistics that are not the last report of every key' % mode, got=got, want=want)
+            if len(handed_) != 1:
+                return dict(ok=False, why='the finalizer fired %d times' % len(handed_))
+            goth = {k: handed_[0].get(k) for k in ('k1', 'k2', 'count_of_rows') if k in handed_[0]}
+            if goth != want:
+                return dict(ok=False, why='the finalizer at the end is handed statistics that are not the last report of every key', got=goth, want=want)
+        return dict(ok=True)
+    except Exception as e:
+        return dict(ok=False, why='raised %s: %s' % (type(e).__name__, str(e)[:160]))
+    finally:
+        shutil.rmtree(root, ignore_errors=True)
+
+
 def model_printer(rep, t):
     wd = tlc.workdir('c05p')
     consts = {'MaxN': 60 if t == 'quick' else 130, 'Nums': '{1, 2, 3, 10}', 'Lasts': '{0, 1, 3}'}
@@ -535,6 +604,14 @@ def run():
         rep.mark_distinct(it)
         if not out['ok']:
             rep.violation(it, dict(case=it, **{k: v for k, v in out.items() if k != 'ok'}), category='finalizer-stats/%s' % out['why'][:40])
+    stcases = model_stats(rep, t)
+    for c, out in zip(stcases, pmap(stats_case, stcases, chunksize=8)):
+        if '__harness_error__' in out:
+            raise tlc.MachineryError('harness error in stats replay: ' + out['__harness_error__'])
+        rep.count(1, traces=1)
+        rep.mark_distinct(c)
+        if not out['ok']:
+            rep.violation(c, dict(case=c, **{k: v for k, v in out.items() if k != 'ok'}), category='stats-merge/%s' % out['why'][:40])
     pcases = model_printer(rep, t)
     if t == 'quick':
         r.shuffle(pcases)
@@ -570,6 +647,10 @@ def replay(path):
     c = rec['case']
     if c.get('finstats'):
         out = finalizer_stats_case(c)
+        print(json.dumps(out, default=str)[:2000])
+        bad = not out['ok']
+    elif c.get('stats_chain'):
+        out = stats_case(c)
         print(json.dumps(out, default=str)[:2000])
         bad = not out['ok']
     elif c.get('upstream'):
